@@ -37,7 +37,10 @@ class C07(PropBase):
         return 1200 if tier == 'quick' else 100000
 
     def random_cases(self, rnd, n):
-        for _ in range(n):
+        for i in range(n):
+            if i % 2 == 1:
+                yield self.readd_case(rnd)
+                continue
             c = state_case(rnd, max_calls=8, isolated=False)
             h = c['hist']
             nodes = gen.history_nodes(tup(h)) or [1, 2]
@@ -48,9 +51,19 @@ class C07(PropBase):
                 kind = rnd.random()
                 if kind < 0.25 or not adds:
                     h.insert(pos, ('add', 0, rnd.choice(nodes + [8]), rnd.choice(nodes + [9]), None, rnd.choice([None, 4])))
-                elif kind < 0.7:
+                elif kind < 0.55:
                     o = rnd.choice(adds)
                     h.append(('add', 0, o[2], o[3], o[4] - rnd.randint(1, 3), rnd.choice([None, o[4] + 5])))
+                elif kind < 0.7:
+                    # an EARLIER run of the pair added again, exactly or nearly (rejected once the pair has a later run):
+                    # either endpoint order, same start, end = the old end + 0 / 1 / 2
+                    o = rnd.choice(adds)
+                    later = max([x[4] for x in adds if {x[2], x[3]} == {o[2], o[3]}] + [o[4]]) + rnd.randint(2, 5)
+                    u, v = (o[2], o[3]) if rnd.random() < 0.5 else (o[3], o[2])
+                    h.append(('add', 0, o[2], o[3], later, rnd.choice([None, later + 2])))
+                    if rnd.random() < 0.5:      # some other pair's event right after the old run
+                        h.append(('add', 0, rnd.choice(nodes), 14, o[4] + rnd.randint(1, 3), None))
+                    h.append(('add', 0, u, v, o[4], (o[5] or o[4] + 1) + rnd.choice([0, 0, 1, 2])))
                 else:
                     o = rnd.choice(adds)
                     h.append(('bulk', 0, 'from', o[4] - 1, rnd.choice([None, o[4] + 2]),
@@ -58,6 +71,40 @@ class C07(PropBase):
             if rnd.random() < 0.3:
                 h.insert(rnd.randint(0, len(h)), random_bulk(rnd, nodes + [10]))
             yield c
+
+    def readd_case(self, rnd):
+        """dense histories over two pairs and few instants in which a pair that has moved on to a later run is given one
+        of its EARLIER runs again (exactly, or with a slightly different end): rejected, and nothing may change --
+        whatever events other pairs have around the old run's end"""
+        directed = rnd.random() < 0.4
+        s = rnd.randint(0, 3)
+        a, b = rnd.choice([((1, 2), (3, 4)), ((1, 2), (2, 3)), ((2, 1), (1, 3))])
+        h = []
+        old = rnd.choice(['points', 'points', 'interval', 'single'])
+        if old == 'points':
+            n = rnd.randint(2, 3)
+            h += [('add', 0, a[0], a[1], s + k, None) for k in range(n)]
+            end = s + n - 1
+        elif old == 'interval':
+            end = s + rnd.randint(1, 2)
+            h.append(('add', 0, a[0], a[1], s, end + 1))
+        else:
+            end = s
+            h.append(('add', 0, a[0], a[1], s, None))
+        for _ in range(rnd.randint(0, 2)):
+            t = rnd.randint(s, end + 3)
+            h.insert(rnd.randint(0, len(h)), ('add', 0, b[0], b[1], t, rnd.choice([None, None, t + 2])))
+        later = end + rnd.randint(2, 4)
+        h.append(('add', 0, a[0], a[1], later, rnd.choice([None, later + 2])))
+        if rnd.random() < 0.5:
+            t = rnd.randint(s, end + 3)
+            h.append(('add', 0, b[0], b[1], t, None))
+        u, v = a if (directed or rnd.random() < 0.6) else (a[1], a[0])
+        h.append(('add', 0, u, v, s, end + 1 + rnd.choice([0, 0, 0, 1, -1])))          # the old run again: rejected
+        if rnd.random() < 0.5:
+            h.append(('add', 0, a[0], a[1], later + 3, None))                           # a legal continuation
+        return dict(directed=directed, removal=True, hist=h, classes=['earlier_run_again'], family=rnd.choice(['int', 'int', 'str']),
+                    functional=rnd.choice([0, 0, 1]))
 
     def program(self, case):
         hist = tup(case['hist'])
